@@ -1894,7 +1894,10 @@ Section Oracle.
     okor (l2_finish PS parse chunkc s) (fun r =>
       snd r = RDone /\ sum_fill (l2_tr _ (fst r)) = sum_fill (l2_tr _ s) /\
       sum_chunk (l2_tr _ (fst r)) = sum_fill (l2_tr _ (fst r)) /\
-      sum_sym (l2_tr _ (fst r)) + sum_abs (l2_tr _ (fst r)) = sum_fill (l2_tr _ (fst r))).
+      sum_sym (l2_tr _ (fst r)) + sum_abs (l2_tr _ (fst r)) = sum_fill (l2_tr _ (fst r)) /\
+      (forall acc, let T := sum_fill (l2_tr _ s) - org in
+         exists k L', isteps2 p T k (est2 (l2_e _ s) (l2_ps _ s)) acc = Some ((T, -1, l2_ps _ (fst r), 0, false), L' ++ acc) /\
+                      rsyms (l2_tr _ (fst r)) = L' ++ rsyms (l2_tr _ s))).
   Proof.
     intros W HH (L & F & J1 & J2). pose proof L as [Lp Ln I Lpend Lunc Lbig Lcnn].
     unfold l2_finish. rewrite Lp.
@@ -1912,11 +1915,20 @@ Section Oracle.
       - unfold drain_fuel, l2_with_lz. cbn [l2_pending].
         pose proof (l2_pending_cap p org s L). pose proof (ei_lz _ _ _ _ I) as [[? ?] ? ? ? ?]. pose proof (ei_ra _ _ _ _ I).
         pose proof (ei_unc _ _ _ _ I). unfold pidx in *. lia. }
-    intros s1 (L2 & P2 & C2 & Un2 & Rc2 & Ra2 & Pi2 & Wp2 & Rl2 & Fin2 & G2 & F2).
-    unfold l2_with_lz, with_lz in *. cbn [l2_e e_lz fst snd l2_tr l2_chunk] in *. cbn [okor fst snd l2_tr sum_fill sum_chunk sum_sym sum_abs].
+    intros s1 (L2 & P2 & C2 & Un2 & Rc2 & Ra2 & Pi2 & Wp2 & Rl2 & Fin2 & G2 & F2 & ZI).
+    unfold l2_with_lz, with_lz in *. cbn [l2_e e_lz fst snd l2_tr l2_chunk l2_ps g_base read_ahead unc_size rc_full] in *.
+    cbn [okor fst snd l2_tr l2_ps sum_fill sum_chunk sum_sym sum_abs rsyms].
     pose proof L2 as [_ _ I2 Lpend2 _ _ _].
-    pose proof (ei_fill _ _ _ _ I2). pose proof (ei_sym _ _ _ _ I2). rewrite logical_pidx in *.
-    split; [reflexivity|]. split; [lia|]. split; lia.
+    pose proof (ei_fill _ _ _ _ I2). pose proof (ei_sym _ _ _ _ I2). pose proof (ei_fill _ _ _ _ I) as Hf0. rewrite logical_pidx in *.
+    split; [reflexivity|]. split; [lia|]. split; [lia|]. split; [lia|].
+    intros acc. set (T := sum_fill (l2_tr PS s) - org).
+    destruct (ZI T acc Fin1) as (k & Lk & Ek & Er); [unfold T; lia|].
+    exists k, Lk. split; [|rewrite Er, E5; reflexivity].
+    assert (E0 : est2 (mkEncd d1 (read_ahead (l2_e PS s)) (unc_size (l2_e PS s)) (rc_full (l2_e PS s)) (g_base (l2_e PS s))) (l2_ps PS s)
+                 = est2 (l2_e PS s) (l2_ps PS s)).
+    { unfold est2, logical_pos. cbn [e_lz read_ahead g_base unc_size rc_full]. rewrite R1. reflexivity. }
+    rewrite E0 in Ek. rewrite Ek. unfold est2. rewrite logical_pidx, Pi2, Ra2, Un2, Rc2.
+    replace (g_base (l2_e PS s1) + write_pos (e_lz (l2_e PS s1))) with T by (unfold T; lia). reflexivity.
   Qed.
 
   Lemma l2_start_independent_spec p org s : wf_p p -> l2_hist_ok p -> l2ok p org s ->
@@ -1973,7 +1985,11 @@ Section Oracle.
     wmeasure (l2_e _ s) len + 1 <= Z.of_nat fuel ->
     okor (l2_write_loop PS parse chunkc fuel s len off) (fun r =>
       exists org1, l2ok p org1 (fst r) /\ snd r = off + len /\ l2_chunk _ (fst r) = l2_chunk _ s /\
-        sum_fill (l2_tr _ (fst r)) = sum_fill (l2_tr _ s) + len).
+        sum_fill (l2_tr _ (fst r)) = sum_fill (l2_tr _ s) + len /\
+        (l2_chunk _ s = None -> org1 = org /\
+           forall T acc, g_base (l2_e _ s) + write_pos (e_lz (l2_e _ s)) + len <= T ->
+             exists n L, isteps2 p T n (est2 (l2_e _ s) (l2_ps _ s)) acc = Some (est2 (l2_e _ (fst r)) (l2_ps _ (fst r)), L ++ acc) /\
+                         rsyms (l2_tr _ (fst r)) = L ++ rsyms (l2_tr _ s))).
   Proof.
     intros W HH. pose proof W as [W1 W2 W3 W4 W5 W6 W7 W8 W9 W10].
     induction fuel as [|f IH]; intros s org len off Lok Hlen Hbig Hfuel.
@@ -1982,36 +1998,40 @@ Section Oracle.
       unfold wmeasure, pidx in *. lia.
     - cbn [l2_write_loop].
       destruct (Z.leb_spec len 0) as [Hz|Hpos].
-      { cbn [okor fst snd]. exists org. split; [exact Lok|]. repeat split; lia. }
+      { cbn [okor fst snd]. exists org. split; [exact Lok|]. split; [lia|]. split; [reflexivity|]. split; [lia|].
+        intros _. split; [reflexivity|]. intros T acc _. exists O, []. split; reflexivity. }
       (* optional independent restart *)
       assert (Hs0 : okor (match l2_chunk PS s with
                           | Some cs => if cs <=? l2_unc PS s then l2_start_independent PS parse chunkc s else Ok s
                           | None => Ok s end)
                          (fun s0 => exists org0, l2ok p org0 s0 /\ l2_chunk _ s0 = l2_chunk _ s /\
                                                  sum_fill (l2_tr _ s0) = sum_fill (l2_tr _ s) /\
-                                                 wmeasure (l2_e _ s0) len <= wmeasure (l2_e _ s) len)).
+                                                 wmeasure (l2_e _ s0) len <= wmeasure (l2_e _ s) len /\
+                                                 (l2_chunk _ s = None -> s0 = s /\ org0 = org))).
       { assert (Hsame : okor (Ok s) (fun s0 => exists org0, l2ok p org0 s0 /\ l2_chunk _ s0 = l2_chunk _ s /\
                                                  sum_fill (l2_tr _ s0) = sum_fill (l2_tr _ s) /\
-                                                 wmeasure (l2_e _ s0) len <= wmeasure (l2_e _ s) len)).
-        { cbn [okor]. exists org. repeat split; try apply Lok; lia. }
+                                                 wmeasure (l2_e _ s0) len <= wmeasure (l2_e _ s) len /\
+                                                 (l2_chunk _ s = None -> s0 = s /\ org0 = org))).
+        { cbn [okor]. exists org. split; [exact Lok|]. split; [reflexivity|]. split; [reflexivity|]. split; [lia|]. intros _; split; reflexivity. }
         destruct (l2_chunk PS s) as [cs|] eqn:Ecs; [|exact Hsame].
         destruct (cs <=? l2_unc PS s); [|exact Hsame].
         eapply okor_weaken; [apply (l2_start_independent_spec p org s W HH Lok)|].
         intros s0 (Lok0 & E0 & C0 & F0). exists (sum_fill (l2_tr _ s0)).
         split; [exact Lok0|]. split; [congruence|]. split; [exact F0|].
+        split; [|intros X; congruence].
         rewrite E0. destruct Lok as (L & _). pose proof (l2i_e _ _ _ L) as I.
         pose proof (ei_lz _ _ _ _ I) as [[? ?] ? ? ? ?]. pose proof (ei_ra _ _ _ _ I). pose proof (qflag_range (l2_e _ s)).
         assert (Hq0 : qflag enc0 = 0) by reflexivity.
         assert (Hw0 : write_pos (e_lz enc0) - pidx enc0 = 0) by reflexivity.
         unfold wmeasure. rewrite Hq0, Hw0. unfold pidx in *. lia. }
       eapply okor_bind; [exact Hs0|]. clear Hs0.
-      intros s0 (org0 & (L0 & F0 & J1 & J2) & C0 & Fl0 & M0).
+      intros s0 (org0 & (L0 & F0 & J1 & J2) & C0 & Fl0 & M0 & Hnone).
       pose proof L0 as [Lp Ln I Lpend Lunc Lbig Lcnn].
       rewrite Lp.
       eapply okor_bind; [apply (fill_step p org0 (l2_e _ s0) (l2_tr _ s0) len W I F0 Hlen)|].
       intros [[d1 used] tr1]. fold (after_fill (l2_e _ s0) d1).
       set (e0 := l2_e _ s0) in *. set (e1 := after_fill e0 d1).
-      intros (I1 & F1 & U1 & Lg1 & Un1 & Rc1 & Wn1 & Bw1 & Hprog & Hstuck & Ab1 & Fl1).
+      intros (I1 & F1 & U1 & Lg1 & Un1 & Rc1 & Wn1 & Bw1 & Hprog & Hstuck & Ab1 & Fl1 & Rs1).
       pose proof (l2_pending_cap p org0 s0 L0) as Hpc. fold e0 in Hpc.
       pose proof (ei_lz _ _ _ _ I1) as [[Ha1 Hb1] Hc1 [Hd1 He1] [Hf1 Hg1] Hpb1]. pose proof (ei_ra _ _ _ _ I1) as [Hr11 Hr12].
       pose proof (ei_unc _ _ _ _ I) as Hu0.
@@ -2019,7 +2039,7 @@ Section Oracle.
       rewrite ck_u32_ok by (unfold U32_MAX, I32_MAX, UNC_BOUND, SYM_MAX, LZMA2_UNCOMPRESSED_LIMIT, pidx in *; lia). cbn [obind].
       assert (Hub1 : unc_size e1 <= UNC_BOUND p) by (rewrite Un1; exact J2).
       eapply okor_bind; [apply (encode_for_lzma2_spec p org0 (l2_ps _ s0) e1 tr1 W I1 Hub1)|].
-      intros [[[b e2] ps2] tr2] (I2 & U2 & B2 & Y1 & Y1' & Y2 & Y3 & Y4 & Y5 & Y6 & Y9 & Y10 & Y11 & Y8 & YA).
+      intros [[[b e2] ps2] tr2] (I2 & U2 & B2 & Y1 & Y1' & Y2 & Y3 & Y4 & Y5 & Y6 & Y9 & Y10 & Y11 & Y8 & YA & YI).
       assert (Hc1' : loop2_cond e1 = true) by (unfold loop2_cond in *; rewrite Un1, Rc1; exact J1).
       pose proof (ei_fill _ _ _ _ I2) as Hf2. pose proof (ei_fill _ _ _ _ I1) as Hf1'. pose proof (ei_fill _ _ _ _ I) as Hf0.
       pose proof (ei_chunk _ _ _ _ I2) as Hch2. pose proof (ei_chunk _ _ _ _ I1) as Hch1. pose proof (ei_chunk _ _ _ _ I) as Hch0.
@@ -2048,7 +2068,9 @@ Section Oracle.
                                     sum_fill (l2_tr _ s3) = sum_fill tr2 /\
                                     write_pos (e_lz (l2_e _ s3)) = write_pos (e_lz e2) /\
                                     read_limit (e_lz (l2_e _ s3)) = read_limit (e_lz e2) /\
-                                    pidx e2 <= pidx (l2_e _ s3))).
+                                    pidx e2 <= pidx (l2_e _ s3) /\ g_base (l2_e _ s3) = g_base e2 /\
+                                    (forall T acc, exists n L, isteps2 p T n (est2 e2 ps2) acc = Some (est2 (l2_e _ s3) (l2_ps _ s3), L ++ acc) /\
+                                                               rsyms (l2_tr _ s3) = L ++ rsyms tr2))).
       { destruct b.
         - (* a symbol was coded in this call or before: the chunk is not empty *)
           assert (Hu2 : 1 <= unc_size e2).
@@ -2056,8 +2078,8 @@ Section Oracle.
             - destruct (Y9 Hq) as (E1 & _ & _). subst e2. rewrite Hc1' in B2. discriminate.
             - assert (NQ : ~ quiet e1) by (unfold quiet; lia). specialize (Y10 NQ Hc1'). rewrite Un1 in Y6. lia. }
           eapply okor_weaken; [apply (write_chunk_spec p org0 s2 W HH L2); unfold s2; cbn [l2_e]; lia|].
-          intros s3 (L3 & C3 & E3 & G3 & Un3 & Rc3 & Ra3 & Fl3 & Ch3 & P3).
-          unfold s2 in *. cbn [l2_e l2_tr l2_chunk l2_pending] in *.
+          intros s3 (L3 & C3 & E3 & G3 & Un3 & Rc3 & Ra3 & Fl3 & Ch3 & P3 & ZC).
+          unfold s2 in *. cbn [l2_e l2_tr l2_chunk l2_pending l2_ps] in *.
           assert (Hpi : pidx e2 <= pidx (l2_e _ s3)).
           { unfold pidx. rewrite E3. pose proof (ei_ra _ _ _ _ I2). destruct Ra3 as [R|R]; rewrite R; lia. }
           split.
@@ -2069,13 +2091,19 @@ Section Oracle.
               + rewrite E3. exact G4.
             - split; [unfold loop2_cond; rewrite Un3, Rc3; reflexivity|].
               rewrite Un3. unfold UNC_BOUND, SYM_MAX, LZMA2_UNCOMPRESSED_LIMIT. lia. }
-          split; [exact C3|]. split; [exact Fl3|]. rewrite E3. repeat split; try reflexivity; try exact Hpi.
-        - cbn [okor]. unfold s2. cbn [l2_e l2_tr l2_chunk].
+          split; [exact C3|]. split; [exact Fl3|]. rewrite E3. split; [reflexivity|]. split; [reflexivity|]. split; [exact Hpi|].
+          split; [exact G3|].
+          intros T acc.
+          assert (HP2 : 1 <= logical_pos e2) by (pose proof (ei_org _ _ _ _ I2); rewrite logical_pidx; lia).
+          destruct (ZC T HP2 (or_introl B2)) as (ev & Est & Erc).
+          exists 1%nat, [ev]. cbn [isteps2 app]. rewrite Est. split; [reflexivity|exact Erc].
+        - cbn [okor]. unfold s2. cbn [l2_e l2_tr l2_chunk l2_ps].
           split.
           { split; [exact L2|]. split; [exact F2|]. split; [apply Y11; [exact Hc1'|reflexivity]|exact U2]. }
-          repeat split; try reflexivity; try lia. }
+          repeat split; try reflexivity; try lia.
+          intros T acc. exists O, []. split; reflexivity. }
       eapply okor_bind; [exact Hs3|]. clear Hs3.
-      intros s3 (Lok3 & C3 & Fl3 & Wp3 & Rl3 & Pi3).
+      intros s3 (Lok3 & C3 & Fl3 & Wp3 & Rl3 & Pi3 & G3 & ZS).
       eapply okor_weaken.
       { apply (IH s3 org0 (len - used) (off + used) Lok3); try lia.
         (* the measure decreases *)
@@ -2090,8 +2118,23 @@ Section Oracle.
           { unfold quiet, e1, after_fill, pidx in *. cbn [e_lz read_ahead]. rewrite Ed1. exact NQ0. }
           specialize (Y10 NQ1 Hc1'). rewrite (qflag_nquiet e0 NQ0) in M0. lia.
         - lia. }
-      intros [s4 off4] (org4 & Lok4 & O4 & C4 & Fl4). cbn [fst snd] in *.
-      exists org4. split; [exact Lok4|]. split; [lia|]. split; [congruence|]. lia.
+      intros [s4 off4] (org4 & Lok4 & O4 & C4 & Fl4 & ZI). cbn [fst snd] in *.
+      exists org4. split; [exact Lok4|]. split; [lia|]. split; [congruence|]. split; [lia|].
+      intros Hn. destruct (Hnone Hn) as [Es0 Eo0]. subst s0 org0.
+      destruct (ZI ltac:(congruence)) as [Eo4 ZI']. split; [exact Eo4|].
+      intros T acc HT.
+      assert (HV1 : Vc p e1 T).
+      { unfold Vc. right. split; [unfold e0 in *; lia|]. destruct (ph_sq _ _ F1) as [Hs|Hq]; [right; exact Hs|left; exact Hq]. }
+      destruct (YI T acc HV1) as (n1 & L1' & En1 & Er1).
+      assert (Hest : est2 e1 (l2_ps PS s) = est2 e0 (l2_ps PS s)).
+      { unfold est2. rewrite !logical_pidx, Lg1, Un1, Rc1. reflexivity. }
+      rewrite Hest in En1.
+      destruct (ZS T (L1' ++ acc)) as (n2 & L2' & En2 & Er2).
+      destruct (ZI' T (L2' ++ L1' ++ acc)) as (n3 & L3' & En3 & Er3); [rewrite G3, Y5, Wp3, Y2; unfold e0 in *; lia|].
+      exists (n1 + (n2 + n3))%nat, (L3' ++ L2' ++ L1'). split.
+      { eapply isteps2_app; [exact En1|]. eapply isteps2_app; [exact En2|].
+        rewrite <- !app_assoc. exact En3. }
+      rewrite Er3, Er2, Er1, Rs1, <- !app_assoc. reflexivity.
   Qed.
 
 
@@ -2099,7 +2142,11 @@ Section Oracle.
     sum_fill (l2_tr _ s) + n <= 4611686018427387904 ->
     okor (l2_write PS parse chunkc s n) (fun r =>
       exists org1, l2ok p org1 (fst r) /\ snd r = RWrote n /\ l2_chunk _ (fst r) = l2_chunk _ s /\
-        sum_fill (l2_tr _ (fst r)) = sum_fill (l2_tr _ s) + n).
+        sum_fill (l2_tr _ (fst r)) = sum_fill (l2_tr _ s) + n /\
+        (l2_chunk _ s = None -> org1 = org /\
+           forall T acc, sum_fill (l2_tr _ s) - org + n <= T ->
+             exists k L, isteps2 p T k (est2 (l2_e _ s) (l2_ps _ s)) acc = Some (est2 (l2_e _ (fst r)) (l2_ps _ (fst r)), L ++ acc) /\
+                         rsyms (l2_tr _ (fst r)) = L ++ rsyms (l2_tr _ s))).
   Proof.
     intros W HH Lok Hn Hbig. unfold l2_write.
     eapply okor_bind.
@@ -2107,8 +2154,10 @@ Section Oracle.
       destruct Lok as (L & _). pose proof L as [Lp _ I _ _ _ _].
       pose proof (ei_lz _ _ _ _ I) as [[? ?] ? ? ? ?]. pose proof (ei_ra _ _ _ _ I). pose proof (qflag_range (l2_e _ s)).
       unfold write_fuel2, wmeasure, pidx in *. rewrite Lp. lia. }
-    intros [s1 off1] (org1 & Lok1 & O1 & C1 & F1). cbn [fst snd okor] in *.
-    exists org1. split; [exact Lok1|]. split; [f_equal; lia|]. split; assumption.
+    intros [s1 off1] (org1 & Lok1 & O1 & C1 & F1 & ZI). cbn [fst snd okor] in *.
+    exists org1. split; [exact Lok1|]. split; [f_equal; lia|]. split; [assumption|]. split; [assumption|].
+    intros Hn0. destruct (ZI Hn0) as [Eo ZI']. split; [exact Eo|].
+    intros T acc HT. apply ZI'. destruct Lok as (L & _). pose proof (ei_fill _ _ _ _ (l2i_e _ _ _ L)). lia.
   Qed.
 
   (* what the calls of an LZMA2Writer return *)
@@ -2120,6 +2169,19 @@ Section Oracle.
     | OpFinish :: _ => ([RDone], cur, true)
     end.
 
+  Fixpoint no_flush (ops : list wop) : Prop :=
+    match ops with [] => True | OpFlush :: _ => False | _ :: r => no_flush r end.
+
+  Lemma l2_results_mono : forall ops cur, ops_ok ops -> cur <= snd (fst (l2_results cur ops)).
+  Proof.
+    induction ops as [|[n| |] r IH]; intros cur Hok; cbn [l2_results ops_ok] in *.
+    - cbn. lia.
+    - destruct Hok as [Hn Hok]. specialize (IH (cur + n) Hok).
+      destruct (l2_results (cur + n) r) as [[rs c] f]. cbn in *. lia.
+    - specialize (IH cur Hok). destruct (l2_results cur r) as [[rs c] f]. cbn in *. lia.
+    - cbn. lia.
+  Qed.
+
   Lemma l2_run_spec p : wf_p p -> l2_hist_ok p -> forall ops s org acc,
     l2ok p org s -> ops_ok ops ->
     sum_fill (l2_tr _ s) + ops_total ops <= 4611686018427387904 ->
@@ -2127,34 +2189,51 @@ Section Oracle.
       let '(s1, res) := r in
       let '(rs, c, fin) := l2_results (sum_fill (l2_tr _ s)) ops in
       res = rev acc ++ rs /\ sum_fill (l2_tr _ s1) = c /\
-      (fin = true -> sum_chunk (l2_tr _ s1) = c /\ sum_sym (l2_tr _ s1) + sum_abs (l2_tr _ s1) = c)).
+      (fin = true -> sum_chunk (l2_tr _ s1) = c /\ sum_sym (l2_tr _ s1) + sum_abs (l2_tr _ s1) = c /\
+         (l2_chunk _ s = None -> no_flush ops -> forall iacc, exists k L,
+            isteps2 p (c - org) k (est2 (l2_e _ s) (l2_ps _ s)) iacc = Some ((c - org, -1, l2_ps _ s1, 0, false), L ++ iacc) /\
+            rsyms (l2_tr _ s1) = L ++ rsyms (l2_tr _ s)))).
   Proof.
     intros W HH. induction ops as [|op r IH]; intros s org acc Lok Hok Hcap.
     - cbn [l2_run l2_results okor]. rewrite frev_rev, app_nil_r. split; [reflexivity|]. split; [reflexivity|discriminate].
-    - destruct op as [n| |]; cbn [l2_run l2_results ops_total ops_ok] in *.
+    - destruct op as [n| |]; cbn [l2_run l2_results ops_total ops_ok no_flush] in *.
       + destruct Hok as [Hn Hok]. pose proof (ops_total_nonneg _ Hok).
         eapply okor_bind; [apply (l2_write_spec p org s n W HH Lok Hn); lia|].
-        intros [s1 res] (org1 & Lok1 & E2 & C1 & F1). cbn [fst snd] in *. subst res.
+        intros [s1 res] (org1 & Lok1 & E2 & C1 & F1 & ZI). cbn [fst snd] in *. subst res.
+        pose proof (l2_results_mono r (sum_fill (l2_tr PS s) + n) Hok) as Hmono.
         eapply okor_weaken; [apply (IH s1 org1 (RWrote n :: acc) Lok1 Hok); lia|].
         intros [s2 res2]. rewrite F1. destruct (l2_results (sum_fill (l2_tr PS s) + n) r) as [[rs c] fin].
-        intros (R1 & R2 & R3). split; [|split; assumption].
-        rewrite R1. cbn [rev]. rewrite <- app_assoc. reflexivity.
+        cbn [fst snd] in Hmono.
+        intros (R1 & R2 & R3). split; [|split; [assumption|]].
+        { rewrite R1. cbn [rev]. rewrite <- app_assoc. reflexivity. }
+        intros Hfin. destruct (R3 Hfin) as (R4 & R5 & R6). split; [exact R4|]. split; [exact R5|].
+        intros Hn0 Hnf iacc. destruct (ZI Hn0) as [Eo ZI']. subst org1.
+        destruct (ZI' (c - org) iacc) as (k1 & L1' & Ek1 & Er1); [lia|].
+        destruct (R6 ltac:(congruence) Hnf (L1' ++ iacc)) as (k2 & L2' & Ek2 & Er2).
+        exists (k1 + k2)%nat, (L2' ++ L1'). split.
+        * rewrite <- app_assoc. eapply isteps2_app; eassumption.
+        * rewrite Er2, Er1, <- app_assoc. reflexivity.
       + eapply okor_bind; [apply (l2_flush_spec p org s W HH Lok)|].
         intros [s1 res] (Lok1 & E2 & P1 & C1 & F1). cbn [fst snd] in *. subst res.
         eapply okor_weaken; [apply (IH s1 org (RDone :: acc) Lok1 Hok); lia|].
         intros [s2 res2]. rewrite F1. destruct (l2_results (sum_fill (l2_tr PS s)) r) as [[rs c] fin].
-        intros (R1 & R2 & R3). split; [|split; assumption].
-        rewrite R1. cbn [rev]. rewrite <- app_assoc. reflexivity.
+        intros (R1 & R2 & R3). split; [|split; [assumption|]].
+        { rewrite R1. cbn [rev]. rewrite <- app_assoc. reflexivity. }
+        intros Hfin. destruct (R3 Hfin) as (R4 & R5 & _). split; [exact R4|]. split; [exact R5|].
+        intros _ Hnf. contradiction.
       + eapply okor_bind; [apply (l2_finish_spec p org s W HH Lok)|].
-        intros [s1 res] (E1 & E2 & E3 & E4). cbn [fst snd okor] in *. subst res. rewrite frev_rev. cbn [rev].
-        split; [reflexivity|]. split; [exact E2|]. intros _. split; lia.
+        intros [s1 res] (E1 & E2 & E3 & E4 & ZI). cbn [fst snd okor] in *. subst res. rewrite frev_rev. cbn [rev].
+        split; [reflexivity|]. split; [exact E2|]. intros _. split; [lia|]. split; [lia|].
+        intros _ _ iacc. destruct (ZI iacc) as (k & L' & Ek & Er). exists k, L'. split; assumption.
   Qed.
 
   Lemma l2_new_spec normal bt4 dict nice preset chunk ps0 : opts_ok dict nice ->
     (match preset with Some plen => 0 <= plen | None => True end) ->
     okor (l2_new_repaired PS normal bt4 dict nice preset chunk ps0) (fun s =>
       exists p org, wf_p p /\ l2_hist_ok p /\ l2ok p org s /\ sum_fill (l2_tr _ s) = 0 /\
-        dict_size p = dict /\ keep_before p = get_extra_size_before dict + mode_extra_before normal + dict).
+        dict_size p = dict /\ keep_before p = get_extra_size_before dict + mode_extra_before normal + dict /\
+        org = - (match preset with Some plen => Z.min plen dict | None => 0 end) /\
+        l2_chunk _ s = (match chunk with Some c => Some (Z.max c dict) | None => None end)).
   Proof.
     intros Ho Hpl. pose proof Ho as [[Hd1 Hd2] [Hn1 Hn2]].
     unfold l2_new_repaired, l2_new_with, enc_new, extra_before_sum, get_extra_size_before, COMPRESSED_SIZE_MAX.
@@ -2175,13 +2254,13 @@ Section Oracle.
       { split.
         - constructor; cbn [l2_p l2_new l2_e l2_tr l2_pending l2_unc]; try assumption; try reflexivity; try lia.
         - split; [exact F|]. split; [reflexivity|]. exact Hub0. }
-      cbn [l2_tr]. repeat split; try assumption; lia.
+      cbn [l2_tr l2_chunk]. repeat split; try assumption; try reflexivity; lia.
     - cbn [okor]. destruct (enc0_einv p W) as (I & F & Q).
       exists p, 0. split; [exact W|]. split; [exact HH|]. split.
       { split.
         - constructor; cbn [l2_p l2_new l2_e l2_tr l2_pending l2_unc sum_fill sum_chunk]; try assumption; try reflexivity; try lia.
         - split; [exact F|]. split; [reflexivity|]. exact Hub0. }
-      cbn [l2_tr sum_fill]. repeat split; try assumption; lia.
+      cbn [l2_tr l2_chunk sum_fill]. repeat split; try assumption; try reflexivity; lia.
   Qed.
 
 
@@ -2360,7 +2439,72 @@ Proof.
   intros s (p & org & W & HH & L & F0 & _ & _).
   eapply okor_weaken.
   { apply (l2_run_spec PS parse chunkc p W HH ops s org [] L Hok). rewrite F0. lia. }
-  intros [s1 res]. rewrite F0. destruct (l2_results 0 ops) as [[rs c] fin]. cbn [rev app]. auto.
+  intros [s1 res]. rewrite F0. destruct (l2_results 0 ops) as [[rs c] fin]. cbn [rev app].
+  intros (R1 & R2 & R3). split; [exact R1|]. split; [exact R2|].
+  intros Hf. destruct (R3 Hf) as (R4 & R5 & _). split; assumption.
+Qed.
+
+(* ---------------------------------------------------------------------------------------------
+   enc_partition_independent (LZMA2Writer without chunk_size and without flush; XZWriter without
+   block size forwards to one LZMA2Writer) *)
+Lemma l2_results_body : forall body cur, no_finish body ->
+  snd (fst (l2_results cur (body ++ [OpFinish]))) = cur + ops_total body /\
+  snd (l2_results cur (body ++ [OpFinish])) = true.
+Proof.
+  induction body as [|[n| |] r IH]; intros cur Hnf; cbn [app l2_results ops_total no_finish] in *.
+  - cbn. split; [lia|reflexivity].
+  - specialize (IH (cur + n) Hnf). destruct (l2_results (cur + n) (r ++ [OpFinish])) as [[rs c] f]. cbn [fst snd] in *.
+    destruct IH. split; [lia|assumption].
+  - specialize (IH cur Hnf). destruct (l2_results cur (r ++ [OpFinish])) as [[rs c] f]. exact IH.
+  - contradiction.
+Qed.
+
+Lemma no_flush_app a b : no_flush a -> no_flush b -> no_flush (a ++ b).
+Proof. induction a as [|[n| |] r IH]; cbn; intros Ha Hb; auto. Qed.
+
+(* Same statement as for LZMAWriter, with the range coder's chunk decisions included: the two
+   histories lead every parser strategy and every range-coder oracle through the same
+   consultations and the same chunk decisions. *)
+Theorem enc_partition_independent_lzma2 : forall (PS : Type) (parse : PS -> Z -> Z -> strat PS) (chunkc : PS -> Z -> Z * PS) (ps0 : PS)
+    normal bt4 dict nice preset body body' s0 s1 res s1' res',
+  opts_ok dict nice ->
+  (match preset with Some plen => 0 <= plen | None => True end) ->
+  ops_ok body -> ops_ok body' -> no_finish body -> no_finish body' -> no_flush body -> no_flush body' ->
+  ops_total body = ops_total body' -> ops_total body <= 4611686018427387904 ->
+  l2_new_repaired PS normal bt4 dict nice preset None ps0 = Ok s0 ->
+  l2_run PS parse chunkc s0 (body ++ [OpFinish]) [] = Ok (s1, res) ->
+  l2_run PS parse chunkc s0 (body' ++ [OpFinish]) [] = Ok (s1', res') ->
+  rsyms (l2_tr _ s1) = rsyms (l2_tr _ s1') /\ l2_ps _ s1 = l2_ps _ s1'.
+Proof.
+  intros PS parse chunkc ps0 normal bt4 dict nice preset body body' s0 s1 res s1' res'
+         Ho Hpl Hok Hok' Hnf Hnf' Hnfl Hnfl' Htot Hcap Enew Erun Erun'.
+  pose proof (l2_new_spec PS parse chunkc normal bt4 dict nice preset None ps0 Ho Hpl) as Hnew.
+  rewrite Enew in Hnew. cbn [okor] in Hnew.
+  destruct Hnew as (p & org & W & HH & L & F0 & _ & _ & _ & Hch).
+  assert (Hfin : ops_ok [OpFinish]) by exact I.
+  assert (Hnff : no_flush [OpFinish]) by exact I.
+  pose proof (l2_run_spec PS parse chunkc p W HH (body ++ [OpFinish]) s0 org [] L (ops_ok_app _ _ Hok Hfin)) as R.
+  pose proof (l2_run_spec PS parse chunkc p W HH (body' ++ [OpFinish]) s0 org [] L (ops_ok_app _ _ Hok' Hfin)) as R'.
+  rewrite Erun in R. rewrite Erun' in R'. cbn [okor] in R, R'. rewrite F0 in R, R'.
+  destruct (l2_results_body body 0 Hnf) as [B1 B2].
+  destruct (l2_results_body body' 0 Hnf') as [B1' B2'].
+  destruct (l2_results 0 (body ++ [OpFinish])) as [[rs c] fin].
+  destruct (l2_results 0 (body' ++ [OpFinish])) as [[rs' c'] fin'].
+  cbn [fst snd] in *. subst fin fin' c c'.
+  specialize (R ltac:(rewrite ops_total_app; cbn [ops_total]; lia)).
+  specialize (R' ltac:(rewrite ops_total_app; cbn [ops_total]; lia)).
+  destruct R as (_ & _ & R). destruct R' as (_ & _ & R').
+  destruct (R eq_refl) as (_ & _ & RI). destruct (R' eq_refl) as (_ & _ & RI').
+  destruct (RI Hch (no_flush_app _ _ Hnfl Hnff) []) as (k & Lk & Ek & Er).
+  destruct (RI' Hch (no_flush_app _ _ Hnfl' Hnff) []) as (k' & Lk' & Ek' & Er').
+  rewrite <- Htot in Ek'. rewrite app_nil_r in Ek, Ek'.
+  set (T := 0 + ops_total body - org) in *.
+  assert (Hterm : forall ps, istep2 PS parse chunkc p T (T, -1, ps, 0, false) = None).
+  { intros ps. unfold istep2. destruct (Z.eqb_spec T 0) as [E0|E0].
+    - rewrite E0. reflexivity.
+    - cbn [Z.leb andb negb]. destruct (Z.ltb_spec T T); [lia|]. reflexivity. }
+  destruct (isteps2_deterministic PS parse chunkc p T _ _ _ _ _ _ _ _ Ek Ek' (Hterm _) (Hterm _)) as [E1 E2].
+  split; [rewrite Er, Er', E2; reflexivity|]. injection E1 as E1. exact E1.
 Qed.
 
 (* history_kept: a window move shifts by a multiple of 64 (so buffer positions and logical
